@@ -595,6 +595,10 @@ func (c *Client) blocks(ctx context.Context, url string, start, limit uint64) ([
 			const tag = "eth_getBlockByNumber"
 			return nil, fmt.Errorf("rpc=%s %w", tag, resps[i].Error)
 		}
+		if resps[i].Block == nil {
+			const tag = "eth_getBlockByNumber"
+			return nil, fmt.Errorf("rpc=%s missing result", tag)
+		}
 	}
 	slog.DebugContext(ctx, "http-get-blocks", "elapsed", time.Since(t0))
 	return blocks, validate("blocks", start, limit, blocks)
@@ -662,6 +666,10 @@ func (c *Client) headers(ctx context.Context, url string, start, limit uint64) (
 		if resps[i].Error.Exists() {
 			const tag = "eth_getBlockByNumber/headers"
 			return nil, fmt.Errorf("rpc=%s %w", tag, resps[i].Error)
+		}
+		if resps[i].Header == nil {
+			const tag = "eth_getBlockByNumber/headers"
+			return nil, fmt.Errorf("rpc=%s missing result", tag)
 		}
 	}
 	slog.DebugContext(ctx, "http-get-headers", "elapsed", time.Since(t0))
